@@ -264,6 +264,20 @@ func panicSites(ix *xIndex, fn *xFunc) []string {
 	add := func(kind string, n ast.Node) {
 		out = append(out, fmt.Sprintf("%s:%s:%s:%s", fn.File.Rel, fn.QName(), kind, srcText(n)))
 	}
+	// divisions carry their dominating guards: the conditions of the enclosing `if`s (negated in an else
+	// branch) and of the earlier sibling `if … { return | continue | break | panic }` statements of every
+	// enclosing block, outermost first — a changed, weakened or removed guard changes the site string
+	addGuarded := func(kind string, n ast.Node, stack []ast.Node) {
+		g := dominatingGuards(n, stack)
+		txt := "none"
+		if len(g) > 0 {
+			txt = strings.Join(g, " ; ")
+		}
+		out = append(out, fmt.Sprintf("%s:%s:%s:%s <= %s", fn.File.Rel, fn.QName(), kind, srcText(n), txt))
+		if guardSink != nil {
+			guardSink(fn, kind, n, g, stack)
+		}
+	}
 	consts := map[string]bool{}
 	for _, f := range fn.File.Pkg.Files {
 		for _, d := range f.AST.Decls {
@@ -330,7 +344,7 @@ func panicSites(ix *xIndex, fn *xFunc) []string {
 					k := s.kind(f.X)
 					if k == "dec" || k == "bigint" || k == "?" || k == "ext" {
 						if !isConst(s, t.Args[0]) {
-							add("quo", t)
+							addGuarded("quo", t, stack)
 						}
 					}
 				}
@@ -363,12 +377,12 @@ func panicSites(ix *xIndex, fn *xFunc) []string {
 				if k == "float" || k2 == "float" {
 					return
 				}
-				add("intdiv", t)
+				addGuarded("intdiv", t, stack)
 			}
 		case *ast.AssignStmt:
 			if t.Tok == token.QUO_ASSIGN || t.Tok == token.REM_ASSIGN {
 				if !isConst(s, t.Rhs[0]) {
-					add("intdiv", t)
+					addGuarded("intdiv", t, stack)
 				}
 			}
 			// v, _ := f(): blank in the position of an error result
@@ -520,4 +534,67 @@ func leavesBlock(b *ast.BlockStmt) bool {
 		return true
 	})
 	return leaves
+}
+
+// guardSink, when set, receives every guarded division (used to emit the guard kernels)
+var guardSink func(fn *xFunc, kind string, site ast.Node, guards []string, stack []ast.Node)
+
+func longText(n ast.Node) string {
+	var b strings.Builder
+	_ = printerFprint(&b, n)
+	return strings.Join(strings.Fields(b.String()), " ")
+}
+
+// dominatingGuards: see addGuarded. `stack` is the path of ancestors of n inside the function body.
+func dominatingGuards(n ast.Node, stack []ast.Node) []string {
+	var out []string
+	path := append(append([]ast.Node{}, stack...), n)
+	for i := 0; i+1 < len(path); i++ {
+		child := path[i+1]
+		switch t := path[i].(type) {
+		case *ast.IfStmt:
+			if child == ast.Node(t.Body) {
+				out = append(out, longText(t.Cond))
+			} else if t.Else != nil && child == t.Else {
+				out = append(out, "not("+longText(t.Cond)+")")
+			}
+		case *ast.BlockStmt:
+			for _, st := range t.List {
+				if st == child {
+					break
+				}
+				if ifs, ok := st.(*ast.IfStmt); ok && ifs.Else == nil && blockLeaves(ifs.Body) {
+					out = append(out, "not("+longText(ifs.Cond)+")")
+				}
+			}
+		case *ast.CaseClause:
+			for _, st := range t.Body {
+				if st == child {
+					break
+				}
+				if ifs, ok := st.(*ast.IfStmt); ok && ifs.Else == nil && blockLeaves(ifs.Body) {
+					out = append(out, "not("+longText(ifs.Cond)+")")
+				}
+			}
+		}
+	}
+	return out
+}
+
+// blockLeaves: the last statement of the block is a return / continue / break / goto / panic.
+func blockLeaves(b *ast.BlockStmt) bool {
+	if len(b.List) == 0 {
+		return false
+	}
+	switch t := b.List[len(b.List)-1].(type) {
+	case *ast.ReturnStmt, *ast.BranchStmt:
+		return true
+	case *ast.ExprStmt:
+		if c, ok := t.X.(*ast.CallExpr); ok {
+			if id, ok := c.Fun.(*ast.Ident); ok && id.Name == "panic" {
+				return true
+			}
+		}
+	}
+	return false
 }
